@@ -15,6 +15,8 @@ import (
 // SMT-LIB2 over pipes, with push/pop scopes.  Every command sent is recorded
 // per scope so that the process can be restarted after a hang.
 type Solver struct {
+	queriesAtStart int
+	Recycles int
 	MaxInts bool // harness profile: counterexample models prefer large 64-bit inputs
 	Kind      string // "cvc5", "z3-new", "z3"
 	TimeoutMs int
@@ -195,6 +197,15 @@ func (s *Solver) Level() int { return len(s.levels) - 1 }
 func (s *Solver) PopTo(level int) {
 	for s.Level() > level {
 		s.Pop()
+	}
+	// a long-lived incremental cvc5 slows down linearly with the number of
+	// queries it has answered (13 ms -> 90 ms over 2000 queries): start a fresh
+	// process at a path boundary every few hundred queries
+	if level == 0 && !s.OneShot && s.Stats.Queries-s.queriesAtStart > 400 {
+		s.queriesAtStart = s.Stats.Queries
+		s.restart()
+		s.Stats.Restarts-- // housekeeping, not a failure
+		s.Recycles++
 	}
 }
 
